@@ -393,7 +393,7 @@ class SetAttrAttribute(FunctionContract):
     required_covers = ('blocked', 'updated', 'created')
 
     def scenarios(self):
-        return ['unknown-name', 'registered-attribute', 'strict-switch']
+        return ['unknown-name', 'registered-attribute', 'strict-switch', 'values-property']
 
     def setup(self, interp, scenario):
         from pyvc.libspec import A
@@ -401,11 +401,15 @@ class SetAttrAttribute(FunctionContract):
         e = {'scenario': scenario, 'added': [], 'closest_calls': 0, 'direct': []}
         obj = make(interp, e, strict_symbolic=True)
         e['strict'] = obj.fields['_strict'].e
-        if scenario == 'strict-switch':
-            name = z3.StringVal('strict')
+        if scenario in ('strict-switch', 'values-property'):
+            # the two properties of the class that can be assigned: neither is a "new attribute"
+            name = z3.StringVal('strict' if scenario == 'strict-switch' else 'values')
         else:
             name = ctx.fresh('name', STR)
-            ctx.assume(name != z3.StringVal('strict'))
+            # "a new attribute": not the name of a property of the class (strict, values, size, ...: those exist)
+            import inspect as _inspect
+            for pn in sorted(n for n in dir(VectorContainer) if isinstance(_inspect.getattr_static(VectorContainer, n), property)):
+                ctx.assume(name != z3.StringVal(pn))
         e['name'] = name
         # the attribute branch does not depend on how many variables there are: two variables and five registered attributes, any name
         variables, registered = ['X', 'Y'], ['_attributes', 'span', 'index', '_strict', 'note']
@@ -420,7 +424,7 @@ class SetAttrAttribute(FunctionContract):
             ctx.assume(z3.Not(is_attr))
         e['is_attr'] = is_attr
         e['value'] = object()
-        e['inputs'] = {'name': name, 'strict': e['strict']} if scenario != 'strict-switch' else {'strict': e['strict']}
+        e['inputs'] = {'name': name, 'strict': e['strict']} if scenario not in ('strict-switch', 'values-property') else {'strict': e['strict']}
 
         def add_attribute(interp_, o, args, kwargs, node):
             e['added'].append((args[0], args[1]))
@@ -437,7 +441,8 @@ class SetAttrAttribute(FunctionContract):
         interp.registry.set_calls({'fsic.core.containers.VectorContainer.add_attribute': add_attribute,
                                    'fsic.core.containers.VectorContainer.get_closest_match': closest,
                                    'builtins.object.__setattr__': object_setattr})
-        return Call([SStr(name) if scenario != 'strict-switch' else 'strict', e['value']], {}, self_obj=obj, entry=e)
+        concrete = {'strict-switch': 'strict', 'values-property': 'values'}.get(scenario)
+        return Call([concrete if concrete else SStr(name), e['value']], {}, self_obj=obj, entry=e)
 
     def post(self, interp, scenario, call, out):
         ctx = interp.ctx
@@ -451,7 +456,7 @@ class SetAttrAttribute(FunctionContract):
             ctx.cover('blocked')
             cls = exc_class(out.exc)
             ctx.prove(z3.And(z3.BoolVal(cls is AttributeError and scenario == 'unknown-name'), strict),
-                      'AttributeError_only_for_a_new_name_under_strict_(never_for_the_strict_switch_or_a_registered_attribute)', 'raises')
+                      'AttributeError_only_for_a_new_name_under_strict_(never_for_the_strict_switch_the_values_property_or_a_registered_attribute)', 'raises')
             ctx.prove(z3.BoolVal(not e['added'] and not e['direct']), 'a_refused_assignment_creates_nothing', 'frame')
             return
         if scenario == 'unknown-name':
@@ -464,9 +469,10 @@ class SetAttrAttribute(FunctionContract):
             # the assignment reaches the object: through the plain attribute protocol (a new entry of the instance under that name), or - for
             # the strict switch on an object that has not registered it yet - through add_attribute
             stored = [(k, v) for k, v in obj.fields.items() if v is e['value']]
-            via_protocol = len(stored) == 1 and not e['added'] and (stored[0][0] == 'strict' if scenario == 'strict-switch' else
+            prop_name = {'strict-switch': 'strict', 'values-property': 'values'}.get(scenario)
+            via_protocol = len(stored) == 1 and not e['added'] and (stored[0][0] == prop_name if prop_name else
                                                                    (V.is_sym(stored[0][0]) and z3.eq(V.z3_of(stored[0][0]), name)))
-            via_add = scenario == 'strict-switch' and len(e['added']) == 1 and e['added'][0][0] == 'strict' and e['added'][0][1] is e['value'] and not stored
+            via_add = prop_name is not None and len(e['added']) == 1 and e['added'][0][0] == prop_name and e['added'][0][1] is e['value'] and not stored
             via_direct = not e['added'] and len(e['direct']) == 1 and e['direct'][0][1] is e['value']
             ctx.prove(z3.BoolVal(bool(via_protocol or via_add or via_direct)), 'an_existing_attribute_or_the_strict_switch_is_assigned_whatever_strict_says', 'ensures',
                       note=f"added={len(e['added'])} direct={len(e['direct'])} stored={[str(k) for k, _ in stored]}")
